@@ -3,6 +3,7 @@ import Dmn.Model.Lexer
 import Dmn.Model.LexerSpec
 import Dmn.Gen.BifNames
 import Dmn.Gen.NameChars
+import Dmn.Gen.Keywords
 import Dmn.Model.NameGrammar
 
 /-!
@@ -88,6 +89,12 @@ def handle (args : List Sexp) : String :=
     | none => "(error bad-args)"
   | [.atom "bifnames"] =>
     toString (Sexp.list (Dmn.Gen.bifNames.map (fun p => ofCps (p.1.toList.map Char.toNat))))
+  -- the arms of read_next_token that begin with a letter: (word, characters accepted by `is_next_character` after it)
+  | [.atom "keywords"] =>
+    toString (Sexp.list ((Dmn.Gen.Keywords.arms.filter (fun a =>
+      match a.word with | c :: _ => isNameStartChar c | [] => false)).map (fun a =>
+        Sexp.list [ofCps a.word, ofCps (a.conds.foldr (fun c acc =>
+          match c with | .next cs _ => cs ++ acc | _ => acc) [])])))
   | [.atom "namechars"] =>
     let g := Dmn.Gen.NameChars.nameStartRanges ++ Dmn.Gen.NameChars.namePartRanges ++ Dmn.Gen.NameChars.whitespaceRanges ++
       Dmn.Gen.NameChars.additionalSymbolRanges
